@@ -19,7 +19,8 @@ iter_unreachable = Unit(
     params={"body": ("seq", "obj")},
     yield_ensures=[("a-yielded-statement-follows-a-blocking-one", "exists(lambda j: 0 <= j and j < _i and core.is_blocking(body[j])) and value == body[_i]")],
     loops={0: {"inv": ["iff(after_block, exists(lambda j: 0 <= j and j < _i and core.is_blocking(body[j])))"]}},
-    calls={"core.is_blocking": ("uf", "bool")}, props=("C16",), fall_is_return=True,
+    calls={"core.is_blocking": ("uf", "bool"), "ast.walk": ("uf", ("seq", "obj"))}, props=("C16",), fall_is_return=True,
+    note="since repair e62dc16 an unreachable statement that contains a yield is kept (it makes the function a generator): fewer statements are yielded, each still follows a blocking one",
 )
 
 delete_pointless = Unit(
